@@ -275,6 +275,20 @@ func checkLockBalance(c *Ctx, rule string, want func(fn *ssa.Function) bool, flo
 			continue
 		}
 		locks, _ := lockCallsIn(fn)
+		// a method that *is* the lock operation of its type (Lock/RLock/TryLock forwarding to the mutex the type
+		// holds): returning with the mutex held is its purpose
+		switch fn.Name() {
+		case "Lock", "RLock", "TryLock", "TryRLock":
+			nCalls := 0
+			eachInstr(fn, func(in ssa.Instruction) {
+				if callOf(in) != nil {
+					nCalls++
+				}
+			})
+			if fn.Signature.Recv() != nil && nCalls == 1 && len(locks) == 1 {
+				continue
+			}
+		}
 		ord := map[string]int{}
 		for _, l := range locks {
 			l := l
